@@ -251,6 +251,12 @@ def _layout(x, how):
 
 def replay(w):
     import emd.spectra as ES
+    if w.get('kind') == 'bins':
+        nb, scale = w['nbins'], w['scale']
+        ed, ce = ES.define_hist_bins(1.0, 9.0, nb, scale)
+        if len(ed) != nb + 1 or len(ce) != nb or not np.all(np.diff(ed) > 0) or abs(ed[0] - 1) > 1e-12 or abs(ed[-1] - 9) > 1e-9 or not np.allclose(ce, (ed[:-1] + ed[1:]) / 2):
+            return True, 'define_hist_bins(1, 9, %d, %s) gave edges %s centres %s' % (nb, scale, np.round(ed, 6).tolist(), np.round(ce, 6).tolist())
+        return False, 'ok'
     if w.get('kind') != 'hht':
         return False, 'unknown witness kind'
     f, a, e = np.array(w['infr'], float), np.array(w['inam'], float), np.array(w['edges'], float)
@@ -308,9 +314,10 @@ def refute(tier, seed, emit):
     for scale in ('linear', 'log'):
         for nb in range(1, 9):
             emit.case(('bins', scale, nb), contract='define_hist_bins')
-            ed, ce = ES.define_hist_bins(1.0, 9.0, nb, scale)
-            if len(ed) != nb + 1 or len(ce) != nb or not np.all(np.diff(ed) > 0) or abs(ed[0] - 1) > 1e-12 or abs(ed[-1] - 9) > 1e-9 or not np.allclose(ce, (ed[:-1] + ed[1:]) / 2):
-                emit.violation('bin-construction', {'kind': 'hht', 'infr': [[1.0]], 'inam': [[1.0]], 'edges': [1.0, 2.0], 'mode': 'energy'}, 'define_hist_bins(1,9,%d,%s) gave %s' % (nb, scale, ed))
+            w = {'kind': 'bins', 'nbins': nb, 'scale': scale}
+            ok, msg = replay(w)
+            if ok:
+                emit.violation('bin-construction', w, msg)
     r = rng(seed, 10)
     nr = 30 if tier == 'quick' else 300
     emit.scope('%d seeded random arrays [T 5..200 x M 1..5] with values around and outside linear/log bin sets, in C / Fortran / transposed-view / strided memory layouts; totals cross-checked' % nr)
